@@ -7,7 +7,7 @@
 (* object and the same views freshly computed from rebuilt runs; Mutate   *)
 (* steps record whether the attempted in-place edit raised.               *)
 (***************************************************************************)
-EXTENDS PoolOps, Json, IOUtils, TLC
+EXTENDS PoolOps, ColorStr, Json, IOUtils, TLC
 VARIABLES i, l, prev, v, conf
 
 Traces == ndJsonDeserialize(IOEnv.TRACE_FILE)
@@ -24,6 +24,8 @@ StepVerdict(p, e) ==
   ELSE IF e.op = "observe" THEN
        (IF e.obs # e.fresh THEN "MemoisedViewsFresh"
         ELSE IF e.obs.s # Text(p.pool[e.a]) \/ e.obs.n # VLen(p.pool[e.a]) THEN "ViewsMatchRuns"
+        \* the terminal string (tokens) displays the value's runs, whatever was rendered before, in whatever object
+        ELSE IF C01Verdict(p.pool[e.a], e.toks) # "ok" THEN "TerminalStringShowsRuns"
         ELSE "ok")
   ELSE IF e.op = "mutate" THEN (IF e.raised = 1 THEN "ok" ELSE "InPlaceEditMustRaise")
   ELSE IF e.exc # "" THEN "ok"      \* an operation may legitimately raise (e.g. width limits); nothing to compare
